@@ -33,6 +33,13 @@ def build_catalogue(seed=0):
                 circ = [["h", [q]] for q in range(n)] + [["cz", list(e)] for e in lc.edges_from_gid(n, info["graph"])] + info["layer"]
                 cat.append({"fn": "compress", "n": n, "name": name, "ops": circ, "meta": {"note": "user circuit"} if j == 1 else None})
             if j == 0:
+                # public helper rotate_stabilizer_into_state(circuit, target, inplace=False): a circuit that begins with an X layer
+                # (as the circuits the library hands out do after their sign repair) rotated into the same group with other signs
+                xs = [q for q in range(n) if rng.random() < 0.6] or [0]
+                circ0 = [["x", [q]] for q in xs] + [["h", [q]] for q in range(n)] + [["cz", list(e)] for e in lc.edges_from_gid(n, info["graph"])] + info["layer"]
+                g0 = members.group_of_circuit(n, [(o[0], tuple(o[1])) for o in circ0])
+                flipped = members.apply_signs(g0, rng.randrange(1, 1 << n))
+                cat.append({"fn": "rotate", "n": n, "ops": circ0, "strings": sweep.strings(flipped, n), "target": "stabilizer" if n % 2 else "circuit"})
                 cat.append({"fn": "classify", "n": n, "strings": strs})
                 # the GF(2) helpers applied to the arrays a caller's objects own (cut ranks, kernels, validity)
                 cat.append({"fn": "f2_on_stabilizer", "n": n, "strings": strs, "format": "matrices+phases"})
@@ -74,6 +81,13 @@ def make_inputs(spec):
     L = libif.lib()
     fn = spec["fn"]
     inp = {}
+    if fn == "rotate":
+        n = spec["n"]
+        inp["circuit"] = libif.build_circuit(n, [(o[0], tuple(o[1])) for o in spec["ops"]])
+        gens = [pauli.parse(s)[:3] for s in spec["strings"]]
+        inp["stab"] = sweep.make_stabilizer(n, gens, "strings+sign")
+        if spec.get("target") == "circuit":
+            inp["target_circuit"] = L.sc.get_preparation_circuit(inp["stab"], "all")
     if fn in ("prep", "readout", "classify", "stabmeas", "f2_on_stabilizer"):
         n = spec["n"]
         gens = [pauli.parse(s)[:3] for s in spec["strings"]]
@@ -105,6 +119,8 @@ def snapshot_inputs(inp):
         out["circuit"] = canon(qc)
     if "qubits" in inp:
         out["qubits"] = list(inp["qubits"])
+    if "target_circuit" in inp:
+        out["target_circuit"] = canon(inp["target_circuit"])
     return out
 
 
@@ -128,6 +144,8 @@ def execute(spec, inp=None):
         return L.sc.get_readout_circuit(inp["stab"], spec["name"])
     if fn == "compress":
         return L.sc.compress_preparation_circuit(inp["circuit"], spec["name"])
+    if fn == "rotate":
+        return L.rot.rotate_stabilizer_into_state(inp["circuit"], inp.get("target_circuit", inp["stab"]), inplace=False)
     if fn == "classify":
         return L.lc.determine_lc_class(inp["stab"])
     if fn == "f2_on_stabilizer":
